@@ -977,7 +977,9 @@ def run_C15(ctx, rng, tier, res, known):
                 else:
                     # instrumentation is validated where it is non-zero
                     want = m.split()[3]
-                    if (want == "0" and n != 0) or (want == ">0" and n == 0):
+                    hist = res.extra.setdefault("alloc_histogram_alloc_builds", {})
+                    hist[str(n)] = hist.get(str(n), 0) + 1
+                    if str(n) != want:
                         res.drift.append(dict(case=line[:300], cfg=c, allocations=n, model=want, note="allocation prediction (alloc build)"))
     res.samples.append(dict(case=lines[0][:200]))
     return {}
